@@ -57,13 +57,13 @@ will be removed.`,
 			io.LogError(err)
 			return
 		}
-		defer utils.CloseWriteFile(sitesposout, cleanOutput)
+		defer utils.CloseWriteFile(sitesposout, sitesposoutfile)
 
 		if rmsitesposout, err = utils.OpenWriteFile(rmsitesposoutfile); err != nil {
 			io.LogError(err)
 			return
 		}
-		defer utils.CloseWriteFile(sitesposout, cleanOutput)
+		defer utils.CloseWriteFile(rmsitesposout, rmsitesposoutfile)
 
 		i := 0
 		char := ""
